@@ -51,6 +51,7 @@ RUNAWAY_DELIMS = '#&$~'
 
 FID_DELIM = 'C11.VERB_DELIM_PRETOKENIZED'
 FID_ENDCMD = 'C11.ENDCMD_IN_BODY'
+FID_USERENV = 'C11.VERBATIM_IN_NEWENVIRONMENT'
 
 
 def greedy(s, syms):
@@ -70,6 +71,15 @@ def greedy(s, syms):
     return tuple(out)
 
 
+def is_env(kind):
+    """verbatim, verbatim* and zzv (= \\newenvironment{zzv}{\\verbatim}{\\endverbatim}) are environments; verb, verb* commands"""
+    return kind.startswith('verbatim') or kind == 'zzv'
+
+
+def a_pre(kind):
+    return ('\\newenvironment{zzv}{\\verbatim}{\\endverbatim}' + PRE) if kind == 'zzv' else PRE
+
+
 def a_alphabet(kind, d, alpha):
     env = kind if kind.startswith('verbatim') else 'verbatim'
     syms = symbols(env, alpha)
@@ -79,13 +89,13 @@ def a_alphabet(kind, d, alpha):
 
 
 def a_unit(kind, d, body):
-    if kind.startswith('verbatim'):
+    if is_env(kind):
         return '%s\\begin{%s}%s\\end{%s}%s' % (HEAD, kind, body, kind, TAIL)
     return '%s\\%s%s%s%s%s' % (HEAD, kind, d, body, d, TAIL)
 
 
 def a_nodename(kind):
-    return kind if kind.startswith('verbatim') else 'verb'
+    return 'verbatim' if kind == 'zzv' else kind if is_env(kind) else 'verb'
 
 
 _ADDR = re.compile(r'at 0x[0-9a-f]+')
@@ -108,13 +118,13 @@ def parse_doc(src, limit=20.0):
 
 def a_observe(kind, d, bodies):
     """parse one document holding one unit per body -> (contents, text, depth, sources) or 'raises:..'/'timeout'"""
-    src = PRE + ''.join(a_unit(kind, d, b) for b in bodies)
+    src = a_pre(kind) + ''.join(a_unit(kind, d, b) for b in bodies)
     try:
         doc = parse_doc(src, 20.0 + 0.01 * len(bodies))
         nodes = doc.getElementsByTagName(a_nodename(kind))
         contents = [n.textContent for n in nodes]
         srcs = []
-        if not kind.startswith('verbatim'):
+        if not is_env(kind):
             for n in nodes:
                 try:
                     srcs.append(_ADDR.sub('at 0x?', plain(str(n.source))))
@@ -130,7 +140,7 @@ def a_observe(kind, d, bodies):
 def a_expected(kind, d, bodies):
     contents = list(bodies)
     text = ''.join(HEAD_TXT + b + TAIL_TXT for b in bodies)
-    srcs = [] if kind.startswith('verbatim') else ['\\%s%s%s%s' % (kind, d, b, d) for b in bodies]
+    srcs = [] if is_env(kind) else ['\\%s%s%s%s' % (kind, d, b, d) for b in bodies]
     return contents, text, 2, srcs
 
 
@@ -173,6 +183,13 @@ def a_judge(kind, d, body):
         # a group end: the following input is then *executed*; not modelled
         return 'known', FID_DELIM, exp, obs, ('opening delimiter %r read under normal category codes (escape/comment/group '
                                               'token): input after it is interpreted, outcome not modelled' % d)
+    # --- named deviation: \verbatim used as the begin code of a user environment does not look for that environment's end
+    if kind == 'zzv':
+        rest = body + '\\end{zzv}' + TAIL
+        if not isinstance(obs, str) and obs[0] == [rest] and obs[1] == HEAD_TXT + rest:
+            return 'known', FID_USERENV, exp, obs, ('\\begin{zzv} with \\newenvironment{zzv}{\\verbatim}{\\endverbatim}: the scan looks for '
+                                                    '\\end{verbatim} / \\endverbatim, not \\end{zzv}: content runs to end of input')
+        return 'violation', None, exp, obs, 'differs from strict oracle and from the prediction of ' + FID_USERENV
     # --- named deviation: the command form \end<env> inside the body terminates the environment
     if kind.startswith('verbatim'):
         marker = '\\end' + kind
@@ -188,7 +205,7 @@ def a_bodies(block):
     """generator of the bodies of a block (canonical decompositions only)"""
     _, kind, d, alpha, prefix, maxlen, minlen, must = block
     syms = a_alphabet(kind, d, alpha)
-    full_end = '\\end{%s}' % kind if kind.startswith('verbatim') else None
+    full_end = '\\end{%s}' % ('verbatim' if kind == 'zzv' else kind) if is_env(kind) else None
     mustsyms = syms[-2:] if must else None
     pre = ''.join(syms[k] for k in prefix)
     for L in range(max(minlen, len(prefix)), maxlen + 1):
@@ -268,13 +285,20 @@ DEFAULT = {'\\': 0, '{': 1, '}': 2, '$': 3, '&': 4, '\n': 5, '#': 6, '^': 7, '_'
 for _c in 'abcdefghijklmnopqrstuvwxyzABCDEFGHIJKLMNOPQRSTUVWXYZ':
     DEFAULT[_c] = 11
 
-PRE_B = '\\newcommand{\\zzm}[1]{\\gamma #1\\delta }\\begin{document}\n\n'
+PRE_B = ('\\newcommand{\\zzm}[1]{\\gamma #1\\delta }\\newcommand{\\zzR}{\\ifmmode\\beta \\else$\\beta $\\fi}'
+         '\\newcommand{\\zzx}{ab}\\begin{document}\n\n')
+PRE_B_AMS = '\\usepackage{amsmath}' + PRE_B
 
 LEAVES = ['x', '\\alpha ', '<', '>', "y'", '\\,', '\\quad ', '2', '\\sqrt x']
 SIBS = ['x', '\\alpha ']                   # representative siblings of the deep child of a binary node
 UNARY = ['sup', 'sub', 'sqrt', 'lr', 'mbox', 'text', 'zzm', 'grp', 'arrh']
 BINARY = ['supsub', 'subsup', 'frac', 'sqrtn', 'arr', 'jux']
 CONTEXTS = ['dollar', 'paren', 'bracket', 'equation', 'textbf', 'ddollar']
+# further containers, explored one level less deep: \begin{math}, \begin{displaymath}, a cell of eqnarray*, a cell of align
+# plus \ensuremath{..} in text, two adjacent inline formulas $..$$x$, and the per-cell source of eqnarray (image generator)
+CONTEXTS2 = ['envmath', 'envdisplay', 'eqnarray', 'align', 'ensure', 'dollar2', 'eqncell']
+CELL_CONTEXTS = ('eqnarray', 'align', 'eqncell')
+EMPTY_CONTEXTS = ('paren', 'bracket', 'equation', 'envmath', 'envdisplay')     # containers that can hold an empty formula
 
 # Second leaf family: unbraced-argument spellings.  An argument is a brace group that ends in a non-letter, a single
 # letter or a single digit; every combination for two-argument commands, one-argument commands (with and without an
@@ -307,9 +331,39 @@ def _spell():
 
 SPELL = _spell()
 
+# Third leaf family: mode-sensitive material, a user macro as unbraced argument, ligature triggers, empty array rows.
+#  ('ml', k)        k in R (user macro \zzR = \ifmmode\beta\else$\beta$\fi), i (bare \ifmmode a\else b\fi), e (\ensuremath{c})
+#                   standing in a formula: TeX is in math mode
+#  ('tb', box, k)   the same inside a text box that stands in a formula: TeX is in text mode again.  The unary operators
+#                   mbox / text (box > formula) put both kinds at every depth of the alternation formula > box > formula > box
+#  ('zx', i)        the multi-token user macro \zzx (= ab) as unbraced argument: expansion keeps it one argument ({ab})
+#  ('arre', i)      arrays with a row that has no content
+MODE_KINDS = ['R', 'i', 'e']
+BOXES = ['mbox', 'text', 'textbf', 'textrm']
+ML_SRC = {'R': '\\zzR ', 'i': '\\ifmmode a\\else b\\fi ', 'e': '\\ensuremath{c}'}
+ML_MATH = {'R': '\\beta ', 'i': 'a', 'e': 'c'}
+ML_TEXT = {'R': '$\\beta $', 'i': 'b', 'e': '$c$'}
+ZX = ['\\frac%s2', '\\frac2%s', '\\sqrt%s', '\\sqrt[3]%s', 'z^%s', 'z_%s^2', '\\hat%s', '\\mathbf%s', '\\frac{%s}2']
+ARRE = [('a\\\\', '\\\\', 'b'), ('', '\\\\', 'a'), ('a\\\\[2pt]', '\\\\', 'b')]      # (before, row end of the empty row, after)
+XTRA = ([('ml', k) for k in MODE_KINDS] + [('tb', b, k) for b in BOXES for k in MODE_KINDS]
+        + [('zx', i) for i in range(len(ZX))] + [('arre', i) for i in range(len(ARRE))] + [('lang', 0), ('lang', 1)]
+        + ['a--b', 'a---b', "f''", 'a~b'])
+LANG = ['\\left%s x \\right%s', '\\big%s x \\big%s']      # < > after \left, \big ... are documented to become \langle \rangle
+ATOM_OPS = ('zzmu', 'ml', 'tb', 'zx', 'arre', 'lang')
+
+# own copy of the document's text-mode character substitutions, in the order they are tried
+CHARSUBS = [('``', chr(8220)), ("''", chr(8221)), ('"`', chr(8222)), ('"\'', chr(8220)), ('`', chr(8216)), ("'", chr(8217)),
+            ('---', chr(8212)), ('--', chr(8211))]
+
+
+def charsub(s):
+    for a, b in CHARSUBS:
+        s = s.replace(a, b)
+    return s
+
 
 def leaves(fam):
-    return LEAVES if fam == 'L' else SPELL
+    return {'L': LEAVES, 'S': SPELL, 'X': XTRA, 'E': ['']}[fam]
 
 FID_CHARSUB = 'C11.MATH_GROUP_CHARSUB'
 FID_TEXT = 'C11.TEXT_DOLLAR_CLOSES_MATH'
@@ -317,19 +371,41 @@ FID_RULE = 'C11.ARRAY_TRAILING_RULE'
 APOS = '’'
 
 
-def pr(t, expand=False, cs=False, tr=False, sub=False):
+def pr(t, expand=False, dev='', sub=False):
     """Print a formula tree.
-    expand -- print the user macro \\zzm{.} expanded (done on the AST: \\gamma . \\delta)
-    cs     -- deviation MATH_GROUP_CHARSUB: text that is a child node of a bare brace group or of an array cell has gone
-              through the text-mode character substitution (' -> U+2019); `sub` is the inherited state.  Arguments of
-              commands are rebuilt from their tokens and are not affected (a brace group inside one is)
-    tr     -- deviation ARRAY_TRAILING_RULE: an \\hline after the last \\\\ of an array is not reproduced"""
+    expand -- print user macros and mode tests expanded (done on the AST, by the mode TeX is in at that place)
+    dev    -- letters of the deviation rules switched on:
+      c  MATH_GROUP_CHARSUB: text that is a child node of a bare brace group or of an array cell has gone through the
+         text-mode character substitution; `sub` is the inherited state.  Arguments of commands are rebuilt from their
+         tokens and are not affected (a brace group inside one is)
+      t  ARRAY_TRAILING_RULE: a row without cell content (only an \\hline after the last \\\\, or nothing at all) is not
+         reproduced
+      e  ENSUREMATH_IN_TEXT: \\ensuremath{c} in text mode is reconstructed as c (no $ $)
+      u  MACRO_ARG_UNBRACED: a multi-token macro used as unbraced argument is reconstructed without braces"""
     if isinstance(t, str):
-        return t.replace("'", APOS) if (cs and sub) else t
+        return charsub(t) if ('c' in dev and sub) else t
     op = t[0]
 
     def P(c, s):
-        return pr(c, expand, cs, tr, s)
+        return pr(c, expand, dev, s)
+    if op == 'ml':
+        return ML_MATH[t[1]] if expand else ML_SRC[t[1]]
+    if op == 'tb':
+        k = t[2]
+        inner = ML_SRC[k]
+        if expand:
+            inner = 'c' if (k == 'e' and 'e' in dev) else ML_TEXT[k]
+        return '\\%s{t %s}' % (t[1], inner)
+    if op == 'zx':
+        tpl = ZX[t[1]]
+        if not expand:
+            return tpl % '\\zzx '
+        return tpl % ('ab' if '{%s}' in tpl else ' ab' if 'u' in dev else '{ab}')
+    if op == 'lang':
+        return LANG[t[1]] % (('\\langle ', '\\rangle ') if expand else ('<', '>'))
+    if op == 'arre':
+        a, e, b = ARRE[t[1]]
+        return '\\begin{array}{c}%s%s%s\\end{array}' % (a, '' if 't' in dev else e, b)
     if op == 'sup':
         return 'z^{%s}' % P(t[1], False)
     if op == 'sub':
@@ -352,7 +428,7 @@ def pr(t, expand=False, cs=False, tr=False, sub=False):
     if op == 'grp':
         return '{%s}' % P(t[1], True)
     if op == 'arrh':
-        return '\\begin{array}{|c|}\\hline %s\\\\\\hline a\\\\%s\\end{array}' % (P(t[1], True), '' if tr else '\\hline ')
+        return '\\begin{array}{|c|}\\hline %s\\\\\\hline a\\\\%s\\end{array}' % (P(t[1], True), '' if 't' in dev else '\\hline ')
     if op == 'supsub':
         return 'z^{%s}_{%s}' % (P(t[1], False), P(t[2], False))
     if op == 'subsup':
@@ -372,12 +448,12 @@ def pr(t, expand=False, cs=False, tr=False, sub=False):
 
 
 def depth(t):
-    return 1 if isinstance(t, str) else 1 + max(depth(c) for c in t[1:])
+    return 1 if (isinstance(t, str) or t[0] in ATOM_OPS) else 1 + max(depth(c) for c in t[1:])
 
 
 def as_tree(x):
     """JSON round trip turns tuples into lists"""
-    return x if isinstance(x, str) else tuple(as_tree(c) for c in x)
+    return x if isinstance(x, (str, int)) else tuple(as_tree(c) for c in x)
 
 
 def trees_op(d, op, fam='L'):
@@ -435,6 +511,18 @@ def wrap(ctx, f):
         return '\\begin{equation}%s\\end{equation}' % f
     if ctx == 'textbf':
         return '\\textbf{u $%s$ v}' % f
+    if ctx == 'envmath':
+        return '\\begin{math}%s\\end{math}' % f
+    if ctx == 'envdisplay':
+        return '\\begin{displaymath}%s\\end{displaymath}' % f
+    if ctx in ('eqnarray', 'eqncell'):
+        return '\\begin{eqnarray}%s&=&x\\nonumber\\\\ \\lefteqn{y<2}\\\\ &&z\\end{eqnarray}' % f
+    if ctx == 'ensure':
+        return '\\ensuremath{%s}' % f
+    if ctx == 'dollar2':
+        return '$%s$$x$' % f
+    if ctx == 'align':
+        return '\\begin{align}%s&=x\\\\ y&<2\\end{align}' % f
     raise ValueError(ctx)
 
 
@@ -449,30 +537,45 @@ def toks(s):
 def expected_from_print(ctx, f):
     """(source tokens, mathjax_source tokens) for the printed formula f: inline formulas are reconstructed between
     $ $ (mathjax: \\( \\)), displays between \\[ \\], equation keeps its \\begin/\\end; mathjax maps < > to \\lt \\gt"""
-    if ctx in ('dollar', 'paren', 'textbf'):
+    if ctx in ('dollar', 'paren', 'textbf', 'envmath', 'dollar2'):
         src = '$%s$' % f
         mj = '\\(%s\\)' % f
-    elif ctx in ('bracket', 'ddollar'):
+    elif ctx == 'ensure':
+        src = mj = f
+    elif ctx == 'eqncell':
+        src = mj = '$\\displaystyle %s $' % f
+    elif ctx in ('bracket', 'ddollar', 'envdisplay'):
         src = mj = '\\[%s\\]' % f
+    elif ctx in CELL_CONTEXTS:
+        src = mj = wrap(ctx, f)
     else:
         src = mj = '\\begin{equation}%s\\end{equation}' % f
     es = toks(src)
+    if ctx == 'eqncell':            # a cell has no mathjax_source; its source is observed twice
+        return es, es
     em = [((0, 'lt') if k == (12, '<') else (0, 'gt') if k == (12, '>') else k) for k in toks(mj)]
     return es, em
 
 
+def prx(ctx, t, dev=''):
+    """expanded print of t as it stands in container ctx (a cell of eqnarray / align is an array cell; the content of
+    \\ensuremath in running text is normalized with the paragraph: same exposure to rule c)"""
+    return pr(t, True, dev, ctx in CELL_CONTEXTS or ctx == 'ensure')
+
+
 def b_expected(ctx, t):
-    return expected_from_print(ctx, pr(t, True))
+    return expected_from_print(ctx, prx(ctx, t))
 
 
 B_TAG = {'dollar': 'math', 'paren': 'math', 'bracket': 'displaymath', 'ddollar': 'displaymath', 'equation': 'equation',
-         'textbf': 'textbf'}
-MATHTAGS = ('math', 'displaymath', 'equation')
+         'textbf': 'textbf', 'envmath': 'math', 'envdisplay': 'displaymath', 'eqnarray': 'eqnarray', 'align': 'align',
+         'ensure': 'ensuremath', 'dollar2': 'math', 'eqncell': 'eqnarray'}
+MATHTAGS = ('math', 'displaymath', 'equation', 'eqnarray', 'align', 'ensuremath')
 
 
 def b_observe(ctx, ts):
     """one document with one paragraph per formula -> ([(source tokens, mathjax tokens)...], context depth) or 'raises:..'"""
-    src = PRE_B + ''.join('x %s y\n\n' % wrap(ctx, pr(t)) for t in ts)
+    src = (PRE_B_AMS if ctx == 'align' else PRE_B) + ''.join('x %s y\n\n' % wrap(ctx, pr(t)) for t in ts)
     try:
         doc = parse_doc(src, 20.0 + 0.02 * len(ts))
         out = []
@@ -492,7 +595,20 @@ def b_observe(ctx, ts):
                     out.append(('no math node', None))
                     continue
                 n = ms[0]
+            if ctx == 'eqncell':
+                cs_ = n.getElementsByTagName('ArrayCell')
+                if not cs_:
+                    out.append(('no cell', None))
+                    continue
+                one = toks(plain(str(cs_[0].source)))
+                out.append((one, one))
+                continue
             out.append((toks(plain(str(n.source))), toks(plain(str(n.mathjax_source)))))
+        if ctx == 'dollar2':        # every formula is followed by the adjacent $x$
+            if len(out) % 2 == 0 and all(o == (toks('$x$'), toks('\\(x\\)')) for o in out[1::2]):
+                out = out[::2]
+            else:
+                out.append(('adjacent formula missing or wrong', None))
         return out, len(doc.context.contexts)
     except core.Timeout:
         return 'timeout'
@@ -502,7 +618,7 @@ def b_observe(ctx, ts):
 
 def text_in_dollar(t, inline):
     """does the tree hold a \\text{.. $..$ ..} whose nearest enclosing math opener is a $ (inline = opener state)"""
-    if isinstance(t, str):
+    if isinstance(t, str) or t[0] in ATOM_OPS:
         return False
     op = t[0]
     if op == 'text':
@@ -514,23 +630,36 @@ def text_in_dollar(t, inline):
     return any(text_in_dollar(c, inline) for c in t[1:])
 
 
+FID_ENS = 'C11.ENSUREMATH_IN_TEXT'
+FID_EMPTY = 'C11.EMPTY_FORMULA_SOURCE'
+FID_UNBRACED = 'C11.MACRO_ARG_UNBRACED'
+DEVS = [('c', FID_CHARSUB, 'text-mode character substitution inside a brace group / array cell of a formula: the '
+                           'reconstructed source has the substituted character (U+2019 for a prime, a dash for --)'),
+        ('t', FID_RULE, 'a row without cell content (the \\hline after the last \\\\ of an array, an empty row) is missing from '
+                        'the reconstructed source'),
+        ('e', FID_ENS, '\\ensuremath{c} inside a text box is reconstructed as c, without math shifts'),
+        ('u', FID_UNBRACED, 'a multi-token user macro used as unbraced argument is reconstructed without braces (\\frac\\zzx 2 '
+                            '-> \\frac ab2)')]
+
+
 def b_classify(ctx, t, item):
     """item = (source tokens, mathjax tokens) observed for tree t in a document whose structure is intact
     -> (verdict, fids, detail)"""
-    strict = pr(t, True)
+    strict = prx(ctx, t)
     if item == expected_from_print(ctx, strict):
         return 'ok', [], ''
-    for cs, tr in ((True, False), (False, True), (True, True)):
-        f = pr(t, True, cs, tr)
-        if f != strict and item == expected_from_print(ctx, f):
-            fids = ([FID_CHARSUB] if cs else []) + ([FID_RULE] if tr else [])
-            why = []
-            if cs:
-                why.append('text-mode character substitution inside a brace group / array cell of a formula: the '
-                           'reconstructed source has U+2019 for the prime')
-            if tr:
-                why.append('the \\hline after the last \\\\ of an array is missing from the reconstructed source')
-            return 'known', fids, '; '.join(why)
+    if t == '':
+        opening = {'paren': '$', 'envmath': '$', 'bracket': '\\[', 'envdisplay': '\\[', 'equation': '\\begin{equation}'}[ctx]
+        if item == (toks(opening), [] if opening == '$' else toks(opening)):
+            return 'known', [FID_EMPTY], ('an empty formula is reconstructed as its opening delimiter only (mathjax_source of an '
+                                          'empty inline formula is empty)')
+    # deviation rules that change the print of this tree at all, then every non-empty combination of them
+    active = [d for d in DEVS if prx(ctx, t, d[0]) != strict]
+    for n in range(1, len(active) + 1):
+        for sub in itertools.combinations(active, n):
+            f = prx(ctx, t, ''.join(d[0] for d in sub))
+            if item == expected_from_print(ctx, f):
+                return 'known', [d[1] for d in sub], '; '.join(d[2] for d in sub)
     return 'violation', [], 'source / mathjax_source token stream differs from the printed formula'
 
 
@@ -540,12 +669,12 @@ def b_judge(ctx, t):
     obs = b_observe(ctx, [t])
     if obs == exp:
         return 'ok', [], exp, obs, ''
-    if text_in_dollar(t, ctx in ('dollar', 'textbf')):
-        return 'known', [FID_TEXT], exp, obs, ('\\text is not a box command: a $ inside \\text{} that is itself inside $...$ '
-                                               'closes the outer formula; resulting structure not modelled')
     if not isinstance(obs, str) and len(obs[0]) == 1 and obs[1] == 2:
         v, fids, detail = b_classify(ctx, t, obs[0][0])
         return v, fids, exp, obs, detail
+    if text_in_dollar(t, ctx in ('dollar', 'textbf')):
+        return 'known', [FID_TEXT], exp, obs, ('\\text is not a box command: a $ inside \\text{} that is itself inside $...$ '
+                                               'closes the outer formula; resulting structure not modelled')
     return 'violation', [], exp, obs, 'formula node missing / document structure or group depth wrong'
 
 
@@ -567,6 +696,8 @@ def b_run_block(block):
         rep.count('b_' + ctx)
         if fam == 'S':
             rep.count('b_unbraced_spelling')
+        if fam == 'X':
+            rep.count('b_mode_and_extra')
         case = {'part': 'b', 'ctx': ctx, 'tree': t}
         if v == 'known':
             for fid in fids:
@@ -621,6 +752,8 @@ def b_run_block(block):
 def _ops(t):
     if isinstance(t, str):
         return []
+    if t[0] in ATOM_OPS:
+        return [t[0]]
     r = [t[0]]
     for c in t[1:]:
         r += _ops(c)
@@ -641,11 +774,11 @@ def replay(case):
     if case['part'] == 'a':
         v, fid, exp, obs, detail = a_judge(case['kind'], case['d'], case['body'])
         fids = [fid] if fid else []
-        src = PRE + a_unit(case['kind'], case['d'], case['body'])
+        src = a_pre(case['kind']) + a_unit(case['kind'], case['d'], case['body'])
     else:
         t = as_tree(case['tree'])
         v, fids, exp, obs, detail = b_judge(case['ctx'], t)
-        src = PRE_B + 'x %s y\n\n' % wrap(case['ctx'], pr(t))
+        src = (PRE_B_AMS if case['ctx'] == 'align' else PRE_B) + 'x %s y\n\n' % wrap(case['ctx'], pr(t))
     detail = '%s | document: %r' % (detail, src)
     if v == 'known':
         notopen = _all_open(fids)
@@ -699,6 +832,11 @@ def run(tier, seed, rep):
                 blocks.append(('a', kind, d, 'full', (), 1, 0, False))
                 for k in range(len(a_alphabet(kind, d, 'full'))):
                     blocks.append(('a', kind, d, 'full', (k,), Ld, 2, False))
+    Lz = 2 if quick else 3
+    for k in range(20):
+        blocks.append(('a', 'zzv', '', 'full', (k,), Lz, 1, False))
+    blocks.append(('a', 'zzv', '', 'full', (), 0, 0, False))
+    bounds['a_user_environment'] = {'definition': '\\newenvironment{zzv}{\\verbatim}{\\endverbatim}', 'symbols': 20, 'max_len': Lz}
     bounds['a_delimiters'] = {'delimiters': len(DELIMS), 'max_len': Ld, 'forms': ['\\verb', '\\verb*']}
     Le = 3 if quick else 4
     for kind in ('verbatim', 'verbatim*'):
@@ -716,25 +854,29 @@ def run(tier, seed, rep):
 
     # ---- (b)
     D = 3 if quick else 4
-    for ctx in CONTEXTS:
-        dmax = D if ctx != 'ddollar' else 3
-        for fam, fmax in (('L', dmax), ('S', dmax - 1)):
+    for ctx in CONTEXTS + CONTEXTS2:
+        dmax = D if ctx in CONTEXTS[:5] else (3 if ctx == 'ddollar' else D - 1)
+        for fam, fmax in (('L', dmax), ('S', dmax - 1), ('X', dmax - 1)):
             blocks.append(('b', ctx, 1, 'leaf', 0, len(leaves(fam)), fam))
             for d in range(2, fmax + 1):
                 for op in UNARY + BINARY:
                     n = count_op(d, op, fam)
                     for lo in range(0, n, 2000):
                         blocks.append(('b', ctx, d, op, lo, min(n, lo + 2000), fam))
+    for ctx in EMPTY_CONTEXTS:
+        blocks.append(('b', ctx, 1, 'leaf', 0, 1, 'E'))
     bounds['b_formulas'] = {'max_depth': D, 'contexts': CONTEXTS, 'extra_context_ddollar_max_depth': 3,
                             'leaves': len(LEAVES), 'unary': len(UNARY), 'binary': len(BINARY),
-                            'unbraced_spelling_atoms': len(SPELL), 'unbraced_spelling_max_depth': D - 1}
+                            'unbraced_spelling_atoms': len(SPELL), 'unbraced_spelling_max_depth': D - 1,
+                            'mode_and_extra_atoms': len(XTRA), 'mode_and_extra_max_depth': D - 1,
+                            'further_contexts': CONTEXTS2, 'further_contexts_max_depth': D - 1}
     blocks = core.rotate(blocks, seed)
     core.merge_all(run_block, blocks, rep, chunksize=1)
     abandoned = rep.counters.get('blocks_abandoned_after_%d_violations' % ABANDON, 0)
     return {'exhaustive': not abandoned, 'bounds': bounds, 'blocks': len(blocks),
             'floors': {'evaluations': 900000 if quick else 15000000, 'a_with_partial_end_marker': 100000,
                        'b_op_arr': 1000, 'b_op_mbox': 1000, 'b_op_zzm': 1000, 'b_op_sqrtn': 1000,
-                       'b_unbraced_spelling': 5000}}
+                       'b_unbraced_spelling': 5000, 'b_mode_and_extra': 5000}}
 
 
 RULE = ('(a) bodies = strings over 16 characters (\\ { } % # & $ ^ ~ blank newline ` - e n d) + 4 composite symbols (\\end, '
@@ -742,10 +884,10 @@ RULE = ('(a) bodies = strings over 16 characters (\\ { } % # & $ ^ ~ blank newli
         'string once (longest-match spelling), never containing the full end delimiter, as body of verbatim, verbatim*, '
         '\\verb|..| and \\verb*|..|; length L+1 over a reduced 8+4 alphabet for verbatim and \\verb; every other printable '
         'non-letter delimiter (40) for \\verb and \\verb* with all bodies of length <= 2 (3) not containing it; bodies of '
-        'length <= 3 (4) over the alphabet extended by end{NAME} (no escape character) and the command form \\endNAME that contain one of the two. Observed: node.textContent, text after the construct '
+        'length <= 3 (4) over the alphabet extended by end{NAME} (no escape character) and the command form \\endNAME that contain one of the two; bodies of length <= 2 (3) in a user environment \\newenvironment{zzv}{\\verbatim}{\\endverbatim}. Observed: node.textContent, text after the construct '
         '(x--..y--%c: dash ligature applied, comment skipped), context depth, verb.source. (b) formula trees of depth '
         '<= 3 (4): 9 leaves, 9 unary and 6 binary operators (binary: all leaf pairs at depth 2, deeper one full child and '
-        'one representative sibling, both orders), plus the same operators to depth 2 (3) over 57 unbraced-argument spellings (\\frac, \\stackrel x {braced, letter, digit}^2; \\sqrt, \\hat, \\bar, \\mathbf, \\sqrt[3], \\sqrt[n] x 3; scripts z^a_b both orders x 9; \\zzm x), in $ $, \\( \\), \\[ \\], equation, \\textbf{..$ $..} (and $$ $$ to depth 3); '
+        'one representative sibling, both orders), plus the same operators to depth 2 (3) over 57 unbraced-argument spellings (\\frac, \\stackrel x {braced, letter, digit}^2; \\sqrt, \\hat, \\bar, \\mathbf, \\sqrt[3], \\sqrt[n] x 3; scripts z^a_b both orders x 9; \\zzm x), plus the same operators to depth 2 (3) over 34 further atoms: mode-sensitive material (user macro with \\ifmmode, bare \\ifmmode, \\ensuremath) standing in the formula and inside \\mbox/\\text/\\textbf/\\textrm within it -- the operators box>formula put them at every depth of formula>box>formula>box and the oracle expands them by the mode TeX is in --, a multi-token user macro as unbraced argument (9 positions), arrays with an empty row (3), \\left< \\big<, ligature triggers a--b a---b f\'\' and a~b; in $ $, \\( \\), \\[ \\], equation, \\textbf{..$ $..} (and $$ $$ to depth 3); one level less deep in \\begin{math}, \\begin{displaymath}, a cell of eqnarray (whole source and per-cell source) and of align, \\ensuremath{..} in text, adjacent $..$$x$; the empty formula in 5 containers; '
         'source and mathjax_source re-tokenized with the reference lexer, blanks dropped, compared with the printed formula '
         '(user macro expanded on the tree). Non-trivial: non-empty body / depth >= 2; distinct = distinct (construct, '
         'delimiter, body) or (context, formula); outcomes = distinct observed contents / token streams')
